@@ -58,6 +58,9 @@ func (a *Act) freshVal(t types.Type, tag string) Val {
 	if f := g.typeFact(v); f != "true" {
 		g.fact(f)
 	}
+	if strings.HasPrefix(s, "S_") {
+		g.assumeType(v)
+	}
 	return v
 }
 
